@@ -438,12 +438,19 @@ def on_pdu_post(self, pdu, old, ghost):
     last = sar == END or sar == UNSEG
     data = iframe_data(pdu)
     sf = f_sfunc(pdu)
+    r0 = old.self._req_seq_num
     return [
         # I-frame with the expected sequence number: the receive sequence number advances by one modulo 64, the data
         # it carries extends the SDU being reassembled, a complete SDU is handed to the channel exactly once
         implies(in_seq, self._req_seq_num == (f_tx_seq(pdu) + 1) % 64),
         implies(in_seq and last, ghost.delivered == old.ghost.delivered + [old.self._in_sdu + data] and self._in_sdu == b''),
         implies(in_seq and not last, ghost.delivered == old.ghost.delivered and self._in_sdu == old.self._in_sdu + data),
+        # no acknowledgement is owed when on_pdu returns: "acknowledged" means equal modulo 64 -- the numbers wrap
+        # from 63 to 0, so an order comparison of the two counters is not the test (8.6.5: ReqSeq arithmetic is modulo 64).
+        # Split at the wrap first (each case is linear for the solvers), then the statement in modulo-64 arithmetic
+        implies(in_seq and r0 == 63, self._req_seq_num == 0 and self._last_acked_rx_seq == 0),
+        implies(in_seq and r0 != 63, self._req_seq_num == r0 + 1 and self._last_acked_rx_seq == r0 + 1),
+        implies(in_seq, self._last_acked_rx_seq == (r0 + 1) % 64 and (self._req_seq_num - self._last_acked_rx_seq) % 64 == 0),
         # the frame is acknowledged (an I-frame sent meanwhile would have carried the acknowledgement)
         implies(in_seq and self._req_seq_num != old.self._last_acked_rx_seq and self._req_seq_num != old.self._req_seq_num,
                 len(ghost.sent) >= 1 and ghost.sent[len(ghost.sent) - 1] == sframe_ctrl(RR, 0, self._req_seq_num, 0) and self._last_acked_rx_seq == self._req_seq_num),
@@ -471,6 +478,9 @@ contract(
     # reserved bits of an S-frame's second octet are zero (Core Vol 3 Part A 3.3.2; bumble's encoder writes req_seq < 64)
     requires=lambda self, pdu, ghost: wf(self, ghost) + [implies(is_sframe(pdu), at(pdu, 1) < 64)],
     ensures=on_pdu_post,
+    ensures_names=['in-seq-advances-mod-64', 'complete-sdu-delivered-once', 'segment-appended', 'ack-not-owed-at-wrap-63-to-0', 'ack-not-owed-without-wrap',
+                   'ack-not-owed-mod-64', 'in-seq-acknowledged-by-rr', 'other-frames-leave-rx-state', 'rnr-sets-busy', 'iframe-keeps-busy',
+                   'poll-answered-with-final', 'final-ends-poll-wait'] + WF_NAMES + ['no-stall'],
     raises={IndexError: lambda self, pdu, old, ghost: [len(pdu) < 2, rx_unchanged(self, old, ghost)] + wf(self, ghost)},
     modifies=ON_PDU_MOD,
     uses=USE_ACK + USE_SF,
